@@ -26,6 +26,8 @@ FEATURES.update({
     'nomemo': "start: x 'a' | x 'b' ;\n\n@nomemo\nx: 'a' ;\n",
     'name-deco': "@@keyword :: if else\n\nstart: {id}+ $ ;\n\n@name\nid: /[a-z]+/ ;\n",
     'kwparams': "start[A, 1, k='v', n=2]: 'a' ;\n",
+    # parameter names and values that begin with underscores (keys that look private or like the class tag of the JSON form)
+    'kwparams-underscore': "start: r s $ ;\n\nr(kind='x', _prec=1, __class=2): 'a' ;\n\ns[_T, __u, k=_v]: 'b' ;\n",
     'typed': "start::Pair::Base: l:'a' r:'b' ;\n",
     'alerts': "start: 'a' ^`low` | 'b' ^^^`high {x}` x:'c' ;\n",
     'const-multi': "start: 'a' `42` `True` c:`text {a}` ;\n",
